@@ -39,5 +39,10 @@ try:
 finally:
     subprocess.run(['git', '-C', '/repo', 'worktree', 'remove', '--force', wt])
     shutil.rmtree(scratch, ignore_errors=True)
+lines = ['# Seeded changes vs. the quick tier of the checks (written by tools/run_seeded.py)', '',
+         '| seeded change | check | result | wall s |', '|---|---|---|---|']
 for r in rows:
-    print('%-28s %-5s %-14s %6.1fs' % r)
+    print('%-50s %-5s %-14s %6.1fs' % r)
+    lines.append('| %s | %s | %s | %.1f |' % r)
+if len(sys.argv) == 1:
+    open(os.path.join(SEEDED, 'RESULTS.md'), 'w').write('\n'.join(lines) + '\n')
